@@ -64,6 +64,10 @@ var c19badURLs = []string{
 	"file://example.com%s",
 	"file://%s%%zz",
 	"file://user@%s",
+	"file://:secret@localhost%s",
+	"file://:secret@%s",
+	"file://:p%%40ss@%s",
+	"file://u:@localhost%s",
 	"file://localhost:0%s",
 }
 
